@@ -192,10 +192,12 @@ namespace c16
   };
 
   template<typename Shape_>
-  std::vector<MeshSpec> mesh_family(bool thorough)
+  std::vector<MeshSpec> mesh_family(bool thorough_tier)
   {
     typedef ShapeInfo<Shape_> SI;
     constexpr int D = SI::D;
+    // the 2D family is cheap: the quick tier uses the full one as well
+    const bool thorough = thorough_tier || (D == 2);
     const int nsym = SI::num_sym();
     std::vector<MeshSpec> r;
     std::vector<int> geos = SI::is_simplex ? std::vector<int>{0, 1, 2} : std::vector<int>{0, 1, 3, 4};
